@@ -1041,7 +1041,19 @@ def _save_confirmed(layer, seed, v, small, log):
         if rc == 1:
             log("[C07] %s reproduces in some fresh processes only (heap-content dependent): replay file marked nondeterministic" % name)
             return path
-    raise core.HarnessError("python replay does not reproduce in a fresh process, minimised or as found: %s\n%s" % (path, out))
+    # Last resort: the batch the violation was seen in, re-run from its start (the case alone does not show it because the
+    # deviation needs what earlier cases of the batch did to the process - heap damage by the code under test).
+    per = 1000 if layer == "B" else 200
+    frm = (v["index"] // per) * per
+    cand = {"layer": layer, "batch": [seed, frm, per], "series": [], "kwargs": {}, "use_c": True, "ndim": False, "property": PROP,
+            "violation": v["vclass"], "signature": small["signature"], "detail": v.get("detail"), "case_in_batch": v["index"],
+            "note": "the violation shows only after the earlier cases of its batch ran in the same process; the batch is the replay unit"}
+    path = core.save_replay(PROP, name, cand)
+    rc, out2 = _fresh_replay(path)
+    if rc == 1:
+        log("[C07] %s reproduces only inside its batch: the batch is the replay unit" % name)
+        return path
+    raise core.HarnessError("python replay does not reproduce in a fresh process, minimised, as found or as a batch: %s\n%s" % (path, out + out2))
 
 
 def replay(path, log=print):
